@@ -560,6 +560,33 @@ example :
       "out/p0.csv").map (·.content) = some (.csv 2) := by
   decide +kernel
 
+/-- a name-making `MakeFilename` without `overwrite` leaves a value that has a file name exactly as it is -/
+theorem mfCall_filename_noop (t : Tpl) (name : Option String) (o : OutCtx) (h : o.filename.isSome) :
+    (mfCall false [(.filename, t)] name o).1 = o := by
+  simp [mfCall, mfStep, h]
+
+/-- **plain values through the group pipeline** (`MapGroup` maps its sequence to scalars): when the group's
+`MakeFilename` only makes a file name and does not overwrite, a plot sent through the group pipeline is treated
+exactly like a plot of the separate pipeline (`Write` has given it its file name) — so `run_fresh_partial` and the
+other theorems about `runPlot` apply to it. -/
+theorem runScalarPlot_eq_runPlot (conv : Conv C) (cfg : Cfg) (ms : List (MFKey × Tpl)) (t : Tpl) (tpl : Nat)
+    (w : World C) (pl : Plot) (on : OutCtx) (pc : String) (hn : memberNamed cfg ms pl = .ok (on, pc))
+    (how : cfg.gmf.overwrite = false) :
+    runScalarPlot conv cfg ms [(.filename, t)] tpl w pl = runPlot conv cfg ms tpl w pl := by
+  have hfn : on.filename.isSome := by
+    unfold memberNamed at hn
+    cases h1 : wmfCore cfg.outdir "output" (plotCtx cfg ms pl).dirname (plotCtx cfg ms pl).filename
+        (plotCtx cfg ms pl).fileext (some "csv") with
+    | error e => simp [h1] at hn
+    | ok r1 =>
+      obtain ⟨d1, fn, fe, pc'⟩ := r1
+      simp only [h1, Except.ok.injEq, Prod.mk.injEq] at hn
+      rw [← hn.1]; rfl
+  unfold runScalarPlot runPlot
+  rw [memberStage_eq conv cfg ms w pl on pc hn]
+  simp only [mfVal, how]
+  rw [mfCall_filename_noop t pl.name _ (by exact hfn)]
+
 /-- `MapGroup` accepts a group iff its data list and `context.group` have the same length -/
 theorem mapGroupGuard_ok (a b : Nat) : mapGroupGuard a b = .ok () ↔ a = b := by
   unfold mapGroupGuard
